@@ -27,8 +27,7 @@ contract(
 )
 contract(
     "multidecoder.decoders.network.parse_ip",
-    props=["C10", "C03"],
-    trusted=True,
+    props=["C10", "C03", "C12"],
     types={"ip": "bytes"},
     returns="Node",
     fresh_nodes=True,
@@ -36,11 +35,12 @@ contract(
     ensures={
         "fresh": "result >= old(alloc())",
         "fields": "result.type == 'network.ip' and result.start == 0 and result.end == len(ip) and result.parent is None and nchildren(result) == 0",
+        # labelled as IP-obfuscated exactly when the text was not already the canonical form (C12)
+        "label": "result.obfuscation == ('ip_obfuscation' if result.value != ip else '')",
         "canonical-input-is-its-own-value": "implies(canon_quad(ip), result.value == ip and result.obfuscation == '')",
         "own": "result.own == result",
     },
-    notes="ASSUMED: socket.inet_aton accepts every canonical quad and IPv4Address(packed).compressed gives the same text back; "
-          "for other inputs parse_ip may raise ValueError or return a normalised value with the ip_obfuscation label",
+    notes="verified against the ASSUMED behaviour of socket.inet_aton / ipaddress.IPv4Address (see the evidence): a canonical quad is accepted and is its own compressed form",
 )
 contract("multidecoder.decoders.network.domain_is_false_positive", props=["C01"], returns="bool")
 
@@ -60,10 +60,11 @@ from pyvc.contract import lemma  # noqa: E402
 lemma("upper-of-lower", props=["C12"], vars={"x": "bytes"}, hyps=[], goal="x.lower().upper() == x.upper()", notes="bytes.lower / bytes.upper are pointwise ASCII case maps", trusted=True)
 
 contract(
-    "multidecoder.decoders.network.parse_ipv6", props=["C12"], trusted=True, types={"ip": "bytes"}, returns="Node", fresh_nodes=True,
+    "multidecoder.decoders.network.parse_ipv6", props=["C12", "C03"], types={"ip": "bytes"}, returns="Node", fresh_nodes=True,
     raises={"ValueError": "True"},
-    ensures={"fresh": "result >= old(alloc())", "fields": "result.type == 'network.ipv6' and result.start == 0 and result.end == len(ip) and result.parent is None and nchildren(result) == 0", "own": "result.own == result"},
-    notes="ASSUMED: socket.inet_pton / ipaddress.IPv6Address raise only what parse_ipv6 turns into ValueError",
+    ensures={"fresh": "result >= old(alloc())", "fields": "result.type == 'network.ipv6' and result.start == 0 and result.end == len(ip) and result.parent is None and nchildren(result) == 0",
+             "label": "result.obfuscation == ('ip_obfuscation' if result.value != ip else '')", "own": "result.own == result"},
+    notes="verified against the ASSUMED behaviour of socket.inet_pton / ipaddress.IPv6Address (see the evidence)",
 )
 # normalize_path: the segment stack is a local list; proved here are the clauses of C12 that do not need a list-valued specification function -
 # totality, "labelled exactly when a segment was removed", "an absolute path stays absolute", no '.' / '..' left on the stack.  The exact
@@ -218,6 +219,7 @@ contract(
         # what find_urls relies on before it hands the text to parse_url: urlsplit accepts it, and there is a host (so the authority is not empty)
         "accepted-by-urlsplit": "implies(result, not urlsplit_raises(url))",
         "has-an-authority": "implies(result, url_has_netloc(url) and len(url_netloc(url)) > 0)",
+        "has-a-host": "implies(result, url_has_host(url))",
         "scheme": "implies(result, url_scheme(url) in (b'http', b'https', b'ftp'))",
     },
 )
@@ -225,7 +227,8 @@ decoder(
     "multidecoder.decoders.network.find_urls",
     ["C01", "C03", "C10", "C12"],
     collector="out",
-    each={**T("network.url", ""), "label": "node.obfuscation in ('', 'escape.percent')", "scheme": "url_scheme(node.value) in (b'http', b'https', b'ftp')"},
+    each={**T("network.url", ""), "label": "node.obfuscation in ('', 'escape.percent')", "scheme": "url_scheme(node.value) in (b'http', b'https', b'ftp')",
+          "host": "url_has_host(node.value)"},
     types={"out": "list[Node]"},
     asserts={"start, end = match.span()": {"the-match-is-printable-ascii": "matches(rb'[!-~]*', group)"}},
     hints={"normalized, obfuscation =": ["printable-slice: x=match.group(); a=0; b=prev", "printable-slice: x=match.group(); a=0; b=close"]},
